@@ -34,9 +34,9 @@ func init() { delete(alwaysNilCallee, "fmt.Fprintf") }
 
 // best-effort calls whose failure never affects an acknowledgement
 var bestEffortCallee = map[string]string{
-	"os.Chown":          "ownership is best effort (non-root daemons cannot chown)",
-	"(*os.File).Chown":  "ownership is best effort",
-	"crypto/rand.Read":  "randomises the schema cookie only",
+	"os.Chown":               "ownership is best effort (non-root daemons cannot chown)",
+	"(*os.File).Chown":       "ownership is best effort",
+	"crypto/rand.Read":       "randomises the schema cookie only",
 	"(*os.File).SetDeadline": "",
 }
 
@@ -247,7 +247,11 @@ func errflowCone(c *Ctx, cfg *EFConfig) {
 		for root.Parent() != nil {
 			root = root.Parent()
 		}
-		rel, _ := relPkg(root.Pkg.Pkg)
+		tp := typesPkgOf(root)
+		if tp == nil {
+			continue
+		}
+		rel, _ := relPkg(tp)
 		if cfg.Pkgs != nil && !cfg.Pkgs[rel] {
 			continue
 		}
@@ -344,7 +348,6 @@ func errflowCone(c *Ctx, cfg *EFConfig) {
 	_ = sort.Strings
 	c.note(fmt.Sprintf("%s: cone of %d root(s): %d functions analysed, %d error-returning call sites, %d fail-stop walks", cfg.Rule, len(roots), nFn, nCalls, nWalk))
 }
-
 
 // deferredErrOverwrite (I2): a deferred closure that assigns the function's named
 // error result must not be able to replace a non-nil error with nil
